@@ -56,6 +56,12 @@ T = [
 ("C06","fix: MemFS created entries in directories that had been removed since they were looked up","MemFS Mkdir/MkdirAll/OpenFile(O_CREATE)/Symlink/Link/Rename into a directory that a concurrent Remove, RemoveAll or Rename removed after the lookup (3 threads: Remove(/d/e/z) || Remove(/d/e) || Rename(/f,/d/e/f)): every call returned nil and the new entry or the moved tree was lost"),
 ("C01","fix: MemFS.OpenFile(O_CREATE|O_EXCL) followed a symbolic link in the last element","MemFS OpenFile(O_CREATE|O_EXCL) on a name that is a symbolic link followed the link (created the target of a dangling link, or answered ELOOP/ENOENT/ENOTDIR/ok from the resolution) where open(2) answers EEXIST; concurrent form: exclusive create || Symlink || Rename all succeeding on one name"),
 ("C04","fix: MemFS followed up to 64 symbolic links in a path","MemFS resolved chains of 41 to 64 symbolic links (Stat, Lstat, Open, ReadFile, ReadDir ... succeeded) where Linux answers ELOOP after 40"),
+("C07","fix: the methods of a nil BasePathFile dereferenced the nil pointer","every BasePathFile method on a typed nil handle (as returned by OpenFile together with its error) panicked with a nil pointer dereference"),
+("C02","fix: MemFile.Truncate with a negative size on a closed handle answered invalid argument","MemFS File.Truncate(-1) on a closed handle: EINVAL instead of the closed-file error"),
+("C03","fix: MemFile.Chmod by a user who does not own the file answered permission denied","MemFS File.Chmod by a non-owner: EACCES where fchmod(2) and MemFS.Chmod give EPERM"),
+("C03","fix: MemFS.OpenFile(O_CREATE|O_EXCL) on an existing file the user cannot write answered permission denied","MemFS OpenFile(O_CREATE|O_EXCL) on an existing file the user cannot write: EACCES instead of EEXIST"),
+("C01","fix: OrefaFS.Rename of a missing name onto itself returned nil","OrefaFS.Rename(missing, same missing name) returned nil (rename(2): ENOENT)"),
+("C03","fix: MemFS Chown, Lchown and File.Chown did not follow the rules of chown(2)","MemFS ownership changes by a non-administrator: File.Chown tested write permission instead of ownership (any writer changed owner and group), Chown/Lchown answered EPERM before resolving the path and refused what chown(2) allows (-1,-1 by anyone; the owner naming his uid and his own or the current group), and -1 was stored as an id"),
 ]
 log = subprocess.check_output(['git','-C','/repo','log','--format=%h %s','adfd2e3..HEAD']).decode().strip().split('\n')
 subj = {}
